@@ -315,7 +315,7 @@ pub fn regressions() -> Vec<Case> {
 }
 
 pub fn run(ctx: &Ctx) {
-    ctx.rule("base lines (token lists) from the generators of C02, C03, C05, C06, C09-C14; rewritings: 0-5 extra blanks (U+0020) in every gap between two tokens and at both ends, an appended '# comment' drawn from printable Unicode and from the smartcalc vocabulary (numbers, '=', operators, currency / zone / month words of both languages, atoms, fields, another '#'), letter-case patterns (upper, lower, capitalised, per-letter) on currency codes and aliases (also inside money literals), month names, zone names, connectives and variable names (definition and use cased independently); oracle (metamorphic, exact): the AST value of every line of the rewritten text equals that of the base text under the same configuration; blank-only and comment-only lines give an empty slot; non-trivial = the base line evaluates and the rewriting inserted a blank between two tokens, changed a keyword's case or appended a comment containing a vocabulary word");
+    ctx.rule("base lines (token lists) from the generators of C02, C03, C05, C06, C09-C14; rewritings: 0-5 extra blanks (U+0020) in every gap between two tokens and at both ends, an appended '# comment' drawn from printable Unicode and from the smartcalc vocabulary (numbers, '=', operators, currency / zone / month words of both languages, atoms, fields, another '#'), letter-case patterns (upper, lower, capitalised, per-letter) on currency codes and aliases (also inside money literals), month names, zone names, connectives and variable names (definition and use cased independently); the blank run between the amount (with magnitude suffix) and the currency word or sign INSIDE a money literal is widened by 1-6 blanks as well; oracle (metamorphic, exact): the AST value of every line of the rewritten text equals that of the base text under the same configuration; blank-only and comment-only lines give an empty slot; non-trivial = the base line evaluates and the rewriting inserted a blank between two tokens, changed a keyword's case or appended a comment containing a vocabulary word");
     ctx.assume("nothing is inserted inside a literal token (3:35 pm, GMT+5:30, 6%, 1,5k, $10 are single tokens); the case of unit names, duration words, base names and today/tomorrow/yesterday is not varied (not among the statement's classes)");
     ctx.run_table(&Noise, "regressions", regressions(), false);
     ctx.run_generated(&Noise, ctx.tier.pick(100_000, 1_000_000), case_strategy);
